@@ -318,7 +318,7 @@ def _violation(res, spec, d, src, pat, msg, k, shapes):
 # ------------------------------------------------------------------ (b) op-rich compositions
 UNARY_T = [
     "mg.negative({a})", "mg.exp({a})", "mg.square({a})", "mg.sum({a})", "mg.sum({a}, axis=0)", "mg.sum({a}, axis=-1, keepdims=True)",
-    "mg.mean({a}, axis=0)", "mg.max({a}, axis=-1)", "{a}[0]", "{a}[..., 1:]", "{a}[[0, 0]]", "{a}.reshape(-1)", "{a}.T",
+    "mg.mean({a}, axis=0)", "mg.max({a}, axis=-1)", "{a}[0]", "{a}[..., 1:]", "{a}[[0, 0]]", "{a}[IX32]", "{a}[..., IXU8]", "{a}.reshape(-1)", "{a}.T",
     "mg.broadcast_to({a}, (2,) + {a}.shape) if hasattr({a}, 'shape') else None", "mg.concatenate([{a}, {a}], axis=0)", "mg.where(M, {a}, 1.5)",
 ]
 BINARY_T = [
@@ -385,7 +385,8 @@ def run_prog_case(spec, tier, mg):
     res["discarded"] = 0
     res["programs"] = 0
     SH = SHAPES[tier]
-    setup = "M = np.array([True, False, True])" if tier == "thorough" else "M = np.array([True, False])"
+    setup = ("M = np.array([True, False, True])" if tier == "thorough" else "M = np.array([True, False])") + \
+        "\nIX32 = np.array([1, 0, 1, 1], dtype=np.int32)\nIXU8 = np.array([0, 0, 1], dtype=np.uint8)"
     for k, body in enumerate(spec["progs"]):
         # typing pre-pass on ordinary floats (ill-typed programs raise inside NumPy and are discarded)
         if not _well_typed(mg, setup, body, SH):
